@@ -49,15 +49,27 @@ def run(chk, tier):
         t = op.split(" ")
         chk.case((t[1], t[2], t[3]), sample=op if r.below(60) == 0 else None)
 
+    # A probe that finds NO key-dependent position decides nothing.  It is not a violation by itself: three random keys
+    # can be the same cipher (RC2 with 1-byte keys: the effective-key reduction maps 0x8b, 0x61 and 0x2f to the same table —
+    # met in the thorough tier; it was a false alarm of the earlier "probe broken?" rule).  Instead every (type, route)
+    # must have at least one non-vacuous probe in the run.
+    nonvac, vac = set(), {}
+
     def oracle(op, out):
+        t = op.split(" ")
         if out.startswith("zero "):
             kd = int(out.split("keydep=")[1].split()[0])
             if kd == 0:
-                return "no key-dependent byte found in the instance (probe broken?)"
+                vac[(t[1], t[2])] = op
+            else:
+                nonvac.add((t[1], t[2]))
             return None
         if out == "unsupported":
-            t = op.split(" ")
             return None if t[2].startswith("clone") and t[1] == "Xtea" else f"probe unsupported: {out}"
         return f"key-dependent bytes survive drop: {out}"
     chk.run_family(cfgs, ops, oracle=oracle)
+    for key_, op in sorted(vac.items()):
+        if key_ not in nonvac:
+            chk.violation(op[:150] + " [vacuous]", {"kind": "direct-oracle", "op": op, "oracle": "no probe of this type and route found a key-dependent byte in the instance: the drop probe decides nothing for it"})
+    chk.extra["vacuous_probes"] = len(vac)
     chk.assumptions.append("copies of key material outside the instance's own storage (moves, spills) are out of scope of the property and of the probe")
